@@ -657,7 +657,7 @@ def build_diff(cfg):
 def diff_dt_estimate(m, cfg):
     if cfg['kind'] == 'stub':
         return 0.4 * float(m.dz) ** 2 / (cfg['D0'] * 1.4)
-    return cfg['dt_est']
+    return None          # real thermodynamics: long simulated time, the call is ended by the step cap
 
 
 # ============================================================================ save -> load -> compare (oracle + model)
@@ -841,7 +841,10 @@ def run_diff_case(res, ctx, tmp, cfg, lines, pending, resume=False):
     for i, n in enumerate(cfg['steps']):
         if cfg['rec'] == 'switched-on' and i == len(cfg['steps']) - 1:
             m.enableRecording()
-        cap.solve(dt * n * 1.0001, n + 2, cfg['solver'])
+        if dt is not None:
+            cap.solve(dt * n * 1.0001, n + 2, cfg['solver'])
+        else:
+            cap.solve(2.0e5, n, cfg['solver'])
         if cfg['rec'] == 'switched-off' and i == 0:
             m.disableRecording()
         if cfg['rec'] == 'removed' and i == len(cfg['steps']) - 1:
@@ -858,9 +861,10 @@ def run_diff_case(res, ctx, tmp, cfg, lines, pending, resume=False):
     if resume and ok_all and cfg['rec'] != 'removed':
         desc = dict(cfg, check='resume', t=float(m.t))
         n = 4
-        StepCap(m).solve(dt * n * 1.0001, n + 2, cfg['solver'])
+        sim = dt * n * 1.0001 if dt is not None else 2.0e5
+        StepCap(m).solve(sim, n + 2 if dt is not None else n, cfg['solver'])
         try:
-            StepCap(fresh).solve(dt * n * 1.0001, n + 2, cfg['solver'])
+            StepCap(fresh).solve(sim, n + 2 if dt is not None else n, cfg['solver'])
         except Exception as e:
             res.violate('resume-after-load-diffusion', 'solve() on the reloaded model raised %s: %s' % (type(e).__name__, str(e)[:100]), desc); return
         res.count('resume-diffusion')
@@ -1249,12 +1253,7 @@ def corr(ctx, scale=1, oracle_only=False, only=None):
                         for rec in ('on', 'off'):
                             E = len(els) - 1
                             cfg = dict(kind=kind, E=E, N=N, L=2e-3, els=els, rec=rec, tseed=0, D0=0.0, steps=steps,
-                                       prof=[[0.08 + 0.02 * e, 0.3 - 0.1 * e, 'linear'] for e in range(E)], solver='euler', T=1473.15, dt_est=None)
-                            m0 = build_diff(cfg)
-                            with _quiet():
-                                m0.setup()
-                                m0._getFluxes(0, [m0.x])
-                            cfg['dt_est'] = float(m0._currdt)
+                                       prof=[[0.08 + 0.02 * e, 0.3 - 0.1 * e, 'linear'] for e in range(E)], solver='euler', T=1473.15)
                             run_diff_case(res, ctx, tmp, cfg, lines, pending, resume=False)
             # ---------------- precipitation
             if only in (None, 'precipitation'):
@@ -1316,8 +1315,6 @@ def replay(ctx, entry):
                 run_precip_case(res, ctx, tmp, cfg, [], [], resume=case.get('check') == 'resume')
             elif 'rec' in case:
                 cfg = {k: case[k] for k in ('kind', 'E', 'N', 'L', 'els', 'rec', 'tseed', 'D0', 'steps', 'prof', 'solver', 'T') if k in case}
-                if 'dt_est' in case:
-                    cfg['dt_est'] = case['dt_est']
                 run_diff_case(res, ctx, tmp, cfg, [], [], resume=case.get('check') == 'resume')
             else:
                 res = corr(ctx, oracle_only=True, only='surrogate')
